@@ -24,11 +24,13 @@ ASSUMPTIONS = [
 SHARDS = {"quick": 4, "thorough": 16}
 TIMEOUT = {"quick": 420, "thorough": 1800}
 MIN_EVALS = 100
-REQUIRED_COUNTERS = ("transfers:a", "transfers:b", "transfers:c", "followup_requests_ok", "bulk_transfers:b")
+REQUIRED_COUNTERS = ("transfers:a", "transfers:b", "transfers:c", "followup_requests_ok", "bulk_transfers:b", "directed_transfers")
 TECHNIQUE = "runtime monitoring: real daemon round trip, bash-decoded values vs sent values, trace byte counts"
 
 FRAGMENTS = ["'", '"', "\\", "$", "`", "!", "\n", "\t", "  ", " ", "\\n", "$'", "${x}", "$(id)", "\\'", "\\\\", "a", "B", "0", "_",
-             "é", "ü", "€", "→", "😀", "#", ";", "&", "|", "(", ")", "{", "}", "*", "?", "[", "]", "~", "=", "%", "x y"]
+             "é", "ü", "€", "→", "😀", "#", ";", "&", "|", "(", ")", "{", "}", "*", "?", "[", "]", "~", "=", "%", "x y",
+             # a backslash directly in front of every character that is special inside some bash quoting style
+             "\\\n", "\\\t", "\\ ", '\\"', "\\$", "\\`", "\\!", "\\\\\n", "\\\r", "\r"]
 SPECIAL = set("'\"\\$`!\n\t;&|(){}*?[]~#")
 
 
@@ -50,6 +52,16 @@ def gen_bulk(rng, env, nonexp):
         env[name] = v + rng.choice(["", "\\", "'", "end"])
         if rng.random() < 0.3:
             nonexp.append(name)
+
+
+DIRECTED_ENVS = [
+    # (env, nonexported): every "backslash + special" pair inside list elements and scalars, at the start, in the
+    # middle and at the end of the value
+    ({"VT_d0": ["first\\\nsecond", "a\\\n", "\\\nb", 'q\\"r', "s\\$t", "u\\`v", "w\\\\\nx", "y\\", "\\"],
+      "VT_d1": "scalar\\\nvalue", "VT_d2": ["\\\n", "\n\\", "$'\\n'", "\\!"]}, []),
+    ({"VT_d3": ["tab\\\there", "cr\\\rhere", "sp\\ here", "nl\nplain", "\"\\\n\""], "VT_d4": "\\\n", "VT_d5": ["", " ", "\n"]},
+     ["VT_d4"]),
+]
 
 
 def gen_env(rng, bulk=False):
@@ -335,6 +347,11 @@ def run(ctx):
     bulk_at = {3: "b", 4: "a", 5: "c"}
     plan[3:3] = ["b", "a", "c"]
     try:
+        for env, nonexp in DIRECTED_ENVS:
+            for path in ("a", "b", "c"):
+                if not ctx.out_of_time(45):
+                    ctx.count("directed_transfers")
+                    one(ctx, sess, path, {k: (list(v) if isinstance(v, list) else v) for k, v in env.items()}, list(nonexp))
         for i, path in enumerate(plan):
             if ctx.out_of_time(45):
                 break
